@@ -38,6 +38,12 @@ def make_base(shape, variant):
     dt = DTYPES[variant % len(DTYPES)]
     rng = np.random.default_rng(1000 + variant)
     a = rng.integers(0, 9, size=tuple(shape))
+    # narrow integer dtypes carry values near the ends of their range, so that block sums do not fit the dtype
+    # (binning must add counts up exactly, in whatever wider type that takes)
+    if dt is np.uint8:
+        a = rng.integers(120, 256, size=tuple(shape))
+    elif dt is np.int16:
+        a = rng.integers(-30000, 30001, size=tuple(shape))
     if np.issubdtype(dt, np.complexfloating):
         a = a + 1j * rng.integers(0, 9, size=tuple(shape))
     return a.astype(dt)
